@@ -64,6 +64,22 @@ type Ledger struct {
 
 type LedgerFunc struct {
 	Abstractions []string `json:"abstractions"`
+	// signature (parameter, result and captured-variable types) on the pinned
+	// tree: function literals are named by ordinal (parent$k), and an edit that
+	// adds or removes a literal makes a contract bind to a different one
+	Sig string `json:"sig,omitempty"`
+}
+
+func funcSig(fn *ssa.Function) string {
+	if fn == nil {
+		return ""
+	}
+	var sb strings.Builder
+	sb.WriteString(fn.Signature.String())
+	for _, fv := range fn.FreeVars {
+		sb.WriteString(" ^" + fv.Name() + ":" + fv.Type().String())
+	}
+	return sb.String()
 }
 
 func loadJSON(path string, v any) error {
@@ -524,6 +540,20 @@ func RunCheck(o CheckOpts) int {
 		}
 		return !contains(ledger.PackageFuncs, n)
 	}
+	// contracts bound to a different function literal than on the pinned tree
+	for _, ob := range obs {
+		if ob.Result != "failed" && ob.Result != "unknown" {
+			continue
+		}
+		lf, ok := ledger.Functions[ob.Function]
+		if !ok || lf.Sig == "" || !strings.Contains(ob.Function, "$") {
+			continue
+		}
+		if fn := prog.Funcs[ob.Function]; fn != nil && funcSig(fn) != lf.Sig {
+			ob.Result = "undecided"
+			ob.Reason = "the function literal " + ob.Function + " is a different one on this tree (literals are numbered in source order; its signature was " + lf.Sig + "): the contract is bound to the wrong code"
+		}
+	}
 	for _, ob := range obs {
 		if ob.Result == "failed" || ob.Result == "unknown" {
 			culprit := ""
@@ -759,7 +789,7 @@ func updateLedger(o CheckOpts, prog *Program, results []*FuncResult, obs []*Obli
 		l.Obligations = map[string]map[string]string{}
 	}
 	for _, fr := range results {
-		l.Functions[fr.Name] = LedgerFunc{Abstractions: fr.Notes}
+		l.Functions[fr.Name] = LedgerFunc{Abstractions: fr.Notes, Sig: funcSig(prog.Funcs[fr.Name])}
 	}
 	m := map[string]string{}
 	for _, ob := range obs {
